@@ -23,7 +23,7 @@ PartsVerdict(e) ==
 
 SetPayloadVerdict(e) ==
   LET b == e.before  x == ExpectSetPayload(b, e.data) IN
-  IF ~WFLoose(b) THEN "harness-not-wellformed"
+  IF ~WFLoose(b) THEN (IF e.chain THEN "chained-setpayload-on-a-packet-the-previous-call-left-ill-formed" ELSE "harness-not-wellformed")
   ELSE IF x.err THEN
        IF e.err = "nil" THEN "setpayload-on-af-only-not-refused"
        ELSE IF e.after # b THEN "setpayload-refused-but-modified"
